@@ -510,12 +510,12 @@ func ruleNoPanicInReceive(c *core.Ctx) {
 	n := 0
 	// exceptions confirmed by reading: each is one named function with a reason
 	allowed := map[string]string{
-		"bus.pendingObject.Activate":      "Activate is never called on the placeholder; not on the message path (CHA edge through Actor.Activate only)",
-		"bus.proxy.ProxyService":          "client-side API misuse guard (type assertion on the client implementation), not reachable from a received message",
+		"bus.pendingObject.Activate":        "Activate is never called on the placeholder; not on the message path (CHA edge through Actor.Activate only)",
+		"bus.proxy.ProxyService":            "client-side API misuse guard (type assertion on the client implementation), not reachable from a received message",
 		"type/conversion.IsConvertibleInto": "unimplemented helper, not called",
-		"meta/signature.NewMetaObjectType": "init-time check of a compile-time constant signature",
-		"meta/idl.InterfaceType.Reader":    "call-graph artefact: InterfaceType values are built only by the IDL parser; signature.Parse (the only producer of Types on the message path) never yields one, the edge comes from field-based type propagation through ListType.value",
-		"meta/idl.InterfaceType.Type":      "same as InterfaceType.Reader",
+		"meta/signature.NewMetaObjectType":  "init-time check of a compile-time constant signature",
+		"meta/idl.InterfaceType.Reader":     "call-graph artefact: InterfaceType values are built only by the IDL parser; signature.Parse (the only producer of Types on the message path) never yields one, the edge comes from field-based type propagation through ListType.value",
+		"meta/idl.InterfaceType.Type":       "same as InterfaceType.Reader",
 	}
 	for fn := range seen {
 		for _, b := range fn.Blocks {
